@@ -737,3 +737,48 @@ Proof.
   destruct ord as [|x r]; [exfalso; exact (lo_nonempty _ _ L eq_refl)|]. cbn [hd].
   specialize (Hr x (or_introl eq_refl)). cbn [posof] in Hr. rewrite Z.eqb_refl in Hr. exact Hr.
 Qed.
+
+(* ------------------------------------------------------------------------------------------ *)
+(* ObjectStore: the de-duplication key is the whole content of a table                         *)
+
+Lemma list_eqb_eq {A} (eqb : A -> A -> bool) : (forall a b, eqb a b = true -> a = b) ->
+  forall l l', list_eqb eqb l l' = true -> l = l'.
+Proof.
+  intros H. induction l as [|x r IH]; destruct l' as [|y s]; cbn; intros E; try discriminate; [reflexivity|].
+  apply andb_prop in E. destruct E as (E1 & E2). f_equal; [apply H; exact E1|apply IH; exact E2].
+Qed.
+Lemma link_eqb_eq a b : link_eqb a b = true -> a = b.
+Proof.
+  unfold link_eqb. intros E.
+  apply andb_prop in E. destruct E as (E & E4). apply andb_prop in E. destruct E as (E & E3).
+  apply andb_prop in E. destruct E as (E1 & E2).
+  destruct a, b. cbn in *. f_equal; lia.
+Qed.
+(* two tables share an object id only if their bytes AND their offset records — position, width, target, adjustment
+   of every offset — coincide *)
+Lemma obj_eqb_eq a b : obj_eqb a b = true -> a = b.
+Proof.
+  unfold obj_eqb. intros E. apply andb_prop in E. destruct E as (E1 & E2).
+  destruct a, b. cbn in *. f_equal.
+  - apply (list_eqb_eq Z.eqb); [intros; lia|exact E1].
+  - apply (list_eqb_eq link_eqb link_eqb_eq). exact E2.
+Qed.
+Lemma store_find_sound d : forall l id, store_find d l = Some id -> In (d, id) l.
+Proof.
+  induction l as [|[o i] r IH]; cbn [store_find]; intros id H; [discriminate|].
+  destruct (obj_eqb d o) eqn:E.
+  - inversion H; subst. apply obj_eqb_eq in E. subst. left. reflexivity.
+  - right. apply IH. exact H.
+Qed.
+(* dedup_preserves_resolution: the id ObjectStore::add hands out denotes exactly the table that was added (same bytes,
+   same offset records), whether it was found or newly inserted; existing entries are never changed.  Since Resolves
+   of an id only depends on the object stored under that id, de-duplication cannot change what any offset resolves to. *)
+Lemma store_add_sound st d st' id : store_add st d = Some (st', id) ->
+  In (d, id) (st_objs st') /\ (forall e, In e (st_objs st) -> In e (st_objs st')).
+Proof.
+  unfold store_add. destruct (store_find d (st_objs st)) as [i|] eqn:E.
+  - intros H. inversion H; subst. split; [apply store_find_sound; exact E|auto].
+  - destruct (st_ids st) as [|i rest]; [discriminate|]. intros H. inversion H; subst. cbn [st_objs]. split.
+    + apply in_or_app. right. left. reflexivity.
+    + intros e He. apply in_or_app. left. exact He.
+Qed.
